@@ -19,8 +19,11 @@ import (
 	"os"
 	"os/exec"
 	"path/filepath"
+	"strconv"
 	"strings"
 	"time"
+
+	"github.com/valyala/fastjson/fastfloat"
 
 	"github.com/cube2222/octosql/config"
 	csvds "github.com/cube2222/octosql/datasources/csv"
@@ -69,12 +72,16 @@ func runSource(ctx context.Context, cr creator, path string, options map[string]
 
 // runSourceSubset runs the datasource with a subset of its schema's fields (a pruned field list).
 func runSourceSubset(ctx context.Context, cr creator, path string, keep []int) (recs [][]octosql.Value, err error, panicked interface{}) {
+	return runSourceSubsetOpts(ctx, cr, path, nil, keep)
+}
+
+func runSourceSubsetOpts(ctx context.Context, cr creator, path string, options map[string]string, keep []int) (recs [][]octosql.Value, err error, panicked interface{}) {
 	defer func() {
 		if p := recover(); p != nil {
 			panicked = p
 		}
 	}()
-	impl, schema, err := cr(ctx, path, nil)
+	impl, schema, err := cr(ctx, path, options)
 	if err != nil {
 		return nil, fmt.Errorf("creator: %w", err), nil
 	}
@@ -606,6 +613,125 @@ func csvCase(cf *lib.CaseFile, r *lib.Rng, dir string, idx int) {
 	}
 }
 
+// ---------- csv with pruned field lists: tied to Model/SourcesCsvProj.v ----------
+
+func coqTimeOpt(s string) string {
+	t, err := time.Parse(time.RFC3339Nano, s)
+	if err != nil {
+		return "None"
+	}
+	return fmt.Sprintf("(Some (%s, %d))", lib.Ns(t), lib.LocID(t))
+}
+
+func coqCell(s string) string {
+	opt := func(ok bool, bits uint64) string {
+		if ok {
+			return fmt.Sprintf("(Some %d)", bits)
+		}
+		return "None"
+	}
+	fs, errs := strconv.ParseFloat(s, 64)
+	ff, errf := fastfloat.Parse(s)
+	return fmt.Sprintf("(mkcell %s %s %s %s)", lib.CoqBytes(s), opt(errs == nil, math.Float64bits(fs)), opt(errf == nil, math.Float64bits(ff)), coqTimeOpt(s))
+}
+
+var projCells = []string{"1", "2", "-7", "2.5", "abc", "", "true", "é", "x y", "2020-01-02T03:04:05Z", "+5", "q\"uote", "a,b"}
+var projNames = []string{"a", "b", "c", "id", "Name", "é", "column_0", "x y", "0"}
+
+func csvProjCase(cf *lib.CaseFile, r *lib.Rng, dir string, idx int) {
+	ncols := 1 + r.Intn(4)
+	header := r.Chance(2, 3)
+	nrows := r.Intn(7)
+	var records [][]string
+	if header {
+		perm := append([]string{}, projNames...)
+		for i := range perm {
+			j := i + r.Intn(len(perm)-i)
+			perm[i], perm[j] = perm[j], perm[i]
+		}
+		records = append(records, perm[:ncols])
+	}
+	colPool := make([][]string, ncols)
+	for j := range colPool {
+		k := 1 + r.Intn(3)
+		for a := 0; a < k; a++ {
+			colPool[j] = append(colPool[j], projCells[r.Intn(len(projCells))])
+		}
+	}
+	for i := 0; i < nrows; i++ {
+		row := make([]string, ncols)
+		for j := range row {
+			row[j] = colPool[j][r.Intn(len(colPool[j]))]
+		}
+		if ncols == 1 && row[0] == "" {
+			row[0] = "z" // encoding/csv skips empty lines
+		}
+		records = append(records, row)
+	}
+	var b bytes.Buffer
+	w := csv.NewWriter(&b)
+	w.WriteAll(records)
+	path := filepath.Join(dir, fmt.Sprintf("cp%d.csv", idx))
+	must(os.WriteFile(path, b.Bytes(), 0o644))
+	defer os.Remove(path)
+	opts := map[string]string{}
+	if !header {
+		opts["header"] = "false"
+	}
+	ctx := ctxWith(32*1024, 1024*1024)
+	schema, fullRecs, ferr, fp := runSource(ctx, csvds.Creator(','), path, opts)
+	names := make([]string, len(schema.Fields))
+	for j, f := range schema.Fields {
+		names[j] = lib.CoqBytes(f.Name)
+	}
+	recItems := make([]string, len(records))
+	for i, rec := range records {
+		cells := make([]string, len(rec))
+		for j := range rec {
+			cells[j] = coqCell(rec[j])
+		}
+		recItems[i] = lib.CoqList(cells)
+	}
+	// the full field list and every proper non-empty subset of it
+	n := len(schema.Fields)
+	masks := []int{(1 << n) - 1}
+	for m := 1; m < (1<<n)-1; m++ {
+		masks = append(masks, m)
+	}
+	if n == 0 {
+		masks = []int{0}
+	}
+	for _, mask := range masks {
+		var keep []int
+		keepBits := make([]string, n)
+		for j := 0; j < n; j++ {
+			keepBits[j] = "false"
+			if mask&(1<<j) != 0 {
+				keep = append(keep, j)
+				keepBits[j] = "true"
+			}
+		}
+		recs, err, p := fullRecs, ferr, fp
+		if mask != (1<<n)-1 {
+			recs, err, p = runSourceSubsetOpts(ctx, csvds.Creator(','), path, opts, keep)
+		}
+		rows := make([]string, len(recs))
+		for i := range recs {
+			rows[i] = lib.CoqValues(recs[i])
+		}
+		js := map[string]interface{}{"kind": "csv-projection", "file": trunc(b.String()), "header": header, "used_columns": keep, "records": len(recs), "err": fmt.Sprint(err)}
+		ci := cf.Add(fmt.Sprintf("CCsv (%s, %s, %s, %s, %s, %s)", lib.CoqBool(header), lib.CoqList(recItems), lib.CoqList(keepBits), lib.CoqList(names), lib.CoqList(rows), lib.CoqBool(err == nil)),
+			js, len(keep) < n && nrows > 0)
+		cf.Count("csv_projection_reads")
+		if len(keep) < n {
+			cf.Count("csv_projection_pruned_reads")
+		}
+		if p != nil {
+			cf.Violation(ci, fmt.Sprintf("csv source with the field list %v panicked: %v", keep, p), "")
+		}
+	}
+}
+
 // ---------- main ----------
 
 func must(err error) {
@@ -882,6 +1008,11 @@ func main() {
 
 	// parquet: oracle only
 	parquetSlice(cf, rng.Fork(), dir, f.Cases(40, 400))
+
+	// csv with pruned field lists, tied to the record-level model
+	for i, n := 0, f.Cases(40, 400); i < n; i++ {
+		csvProjCase(cf, rng.Fork(), dir, i)
+	}
 
 	// csv: oracle only
 	for i, n := 0, f.Cases(60, 600); i < n; i++ {
